@@ -12,7 +12,9 @@ import (
 
 	"verif/sim/core"
 
+	"github.com/kardiachain/go-kardia/kai/state/cstate"
 	"github.com/kardiachain/go-kardia/lib/common"
+	"github.com/kardiachain/go-kardia/lib/log"
 	kproto "github.com/kardiachain/go-kardia/proto/kardiachain/types"
 	"github.com/kardiachain/go-kardia/types"
 )
@@ -400,6 +402,7 @@ func (engine) Run(t *testing.T, tape *core.Tape, opt core.Options) (res *core.Ru
 		return
 	}
 
+	height := uint64(1)
 	nSteps := tape.Range(5, opt.Int("steps", 120))
 	changesSeen, errsSeen, rescales := 0, 0, 0
 	for s := 0; s < nSteps; s++ {
@@ -516,8 +519,54 @@ func (engine) Run(t *testing.T, tape *core.Tape, opt core.Options) (res *core.Ru
 			}
 			step("block[%s] %v", kind, fmtChanges(ch))
 			ah.Add("block", kind)
-			n := vs.Copy()
 			mm := m.copy()
+			if tape.Chance(2, 3) {
+				// the real cstate.updateState on a state whose next set is vs: the result's next set
+				// must be "change set applied, then one round", its current set the old next set
+				// and its last set the old current set, all with their priorities untouched
+				height++
+				cur := vs.Copy()
+				cur.IncrementProposerPriority(int64(tape.Range(1, 3))) // some other point of the rotation
+				st := cstate.LatestBlockState{ChainID: "valset", InitialHeight: 1, LastBlockHeight: height - 1,
+					NextValidators: vs, Validators: cur, LastValidators: cur.Copy(), LastHeightValidatorsChanged: 1}
+				beforeNext, beforeCur := snapshot(vs), snapshot(cur)
+				ns, err := cstate.VerifValsetUpdateState(log.New(), st, types.BlockID{}, &types.Header{Height: height}, toVals(ch))
+				why := ""
+				if len(ch) > 0 {
+					why = mm.update(ch, true)
+				}
+				if (err != nil) != (why != "") {
+					res.Violate(prop, "update-verdict", fmt.Sprintf("updateState: change set (%s) accepted=%v by implementation, accepted=%v by specification", kindClass(kind, why), err == nil, why == ""),
+						fmt.Sprintf("changes=%v err=%v spec=%q", fmtChanges(ch), err, why))
+					return
+				}
+				res.Probe("real-updateState")
+				if err != nil {
+					res.Fault("invalid-changeset:" + why)
+					if snapshot(vs) != beforeNext {
+						res.Violate(prop, "all-or-nothing", "updateState with a rejected change set ("+why+") modified the state's next validator set", beforeNext+" -> "+snapshot(vs))
+						return
+					}
+					continue
+				}
+				if len(ch) > 0 {
+					changesSeen++
+					res.Probe("real-updateState-with-change-set")
+				}
+				mm.increment(1)
+				if snapshot(ns.Validators) != beforeNext || snapshot(ns.LastValidators) != beforeCur || snapshot(vs) != beforeNext {
+					res.Violate(prop, "state-shift", "updateState does not carry the old next / current sets over unchanged as the new current / last sets",
+						fmt.Sprintf("old next %s\nnew cur  %s\nold cur  %s\nnew last %s", beforeNext, snapshot(ns.Validators), beforeCur, snapshot(ns.LastValidators)))
+					return
+				}
+				vs, m = ns.NextValidators, mm
+				if o, sig, d := compare(vs, m, true, "updateState (change set, then one round)"); o != "" {
+					res.Violate(prop, o, sig, d)
+					return
+				}
+				continue
+			}
+			n := vs.Copy()
 			if len(ch) > 0 {
 				err := n.UpdateWithChangeSet(toVals(ch))
 				why := mm.update(ch, true)
